@@ -1216,7 +1216,9 @@ class BaseGateway:
         except EOFError as exc:
             log("EOF without prior gateway termination message")
             self._error = exc
-        except Exception as exc:
+        except BaseException as exc:
+            # whatever ended the loop (also a SystemExit raised by a callback):
+            # the steps below must run, or nothing ever ends this process
             log(self._geterrortext(exc))
         log("finishing receiving thread")
         # wake up and terminate any execution waiting to receive
